@@ -116,42 +116,73 @@ def rej1(chk, fx):
 
 def rej2(chk, fx):
     chk.rule("REJ-2", "symbol lookup", 5)
+    symbol_lookup(chk, fx)
+
+
+def symbol_lookup(chk, fx):
+    chk.rule("REJ-2", "symbol lookup", 5)
+    from .. import pathsig as PS
+    from ..lr import _drop_noise
     f = fx.need("ctpg::utils::find_str")[0]
     flow.assert_structured(f)
     cn = Canon(f)
-    body = f.body.get("c") or []
-    loops = [s for s in body if s.get("k") == "CXXForRangeStmt"]
-    ok = len(loops) == 1 and A.declref_id(loops[0].get("range")) == f.o["params"][0]["id"]
-    # counter: one increment per iteration, no break/continue
-    incs, exits = 0, []
-    if ok:
-        for ev, term_ in flow.paths(loops[0]["body"], unroll=0):
-            k = sum(1 for e in ev if e[0] == "stmt" for eff in AI.effects(e[1]) if eff[0] == "inc" and eff[2] == 1)
-            if term_ in ("fall", "continue") and k != 1:
-                ok = False
-            if term_ == "break":
-                ok = False
-            if term_ == "return":
-                g = [AI.tstr(AI.atom(e[1])[1]) for e in ev if e[0] == "cond"]
-                exits.append((cn.c(ev[-1][1]["value"]), None, g))
-    tail = body[body.index(loops[0]) + 1:] if ok else []
-    tail_ok = False
-    if len(tail) >= 1 and tail[0].get("k") == "IfStmt":
-        c = cn.c(tail[0]["cond"])
-        th = tail[0].get("then")
-        is_throw = th is not None and (th.get("k") == "CXXThrowExpr" or strip(th).get("k") == "CXXThrowExpr" or
-                                       any(x.get("k") == "CXXThrowExpr" for x in walk(th)))
-        tail_ok = re.fullmatch(r"\(\?\w+ == (\d+|N)\)", c) is not None and is_throw
-    if len(tail) == 1 and tail[0].get("k") == "CXXThrowExpr":
-        tail_ok = True
-    found_ret = any(re.fullmatch(r"\?\w+", v) and any("str_equal" in x for x in g) for v, o, g in exits)
-    if ok and tail_ok and found_ret:
-        chk.ok("REJ-2", A.site(f), "find_str returns the position of the first equal entry; after scanning all N "
-                                   "entries (counter == N) it throws")
-    else:
+    conds, nodes = PS.event_conditions(cn, f.body, unroll=1, drop=_drop_noise)
+    rets = {k: v for k, v in conds.items() if k[0] == "return"}
+    throws = [k for k in conds if k[0] == "throw"]
+    breaks = [k for k in conds if k[0] == "break"]
+    problems = []
+    found_ret = False
+    for (k, t), c in rets.items():
+        if t in ("uninitialized", "uninitialized16", "uninitialized32"):
+            # only in the (infeasible) branch where the full scan did not count all N entries
+            if not all(any(re.fullmatch(r"\((\?\w+|@i\{[^}]*\}) == (\d+|N)\)|\((\d+|N) == (\?\w+|@i\{[^}]*\})\)", a) and not pol for a, pol in conj) for conj in c):
+                problems.append("returns the 'not found' sentinel (%s) instead of throwing" % PS.show(c)[:100])
+            continue
+        if not all(any("str_equal(" in a and "$1" in a and pol for a, pol in conj) for conj in c):
+            problems.append("returns %s without str_equal(entry, str) having held (%s)" % (t, PS.show(c)[:100]))
+        else:
+            found_ret = True
+            # the value returned is the position of the entry compared
+            if not (re.fullmatch(r"\?\w+", t) or t.startswith("@i{")):
+                problems.append("returns %s, not the position of the matching entry" % t)
+    if not throws:
+        problems.append("never throws")
+    if breaks:
+        problems.append("the scan can be left by break before all entries were compared")
+    if not found_ret:
+        problems.append("no return of the matching position")
+    # the comparison is between a table entry and the looked-up string
+    se = sorted({a for c in conds.values() for conj in c for a, p in conj if "str_equal(" in a})
+    if se and not all(re.fullmatch(r"str_equal\((@each\{\$0\}|\$0\[[^\]]+\]), \$1\)", a) for a in se):
+        problems.append("entries are compared as %s" % se)
+    if problems:
         chk.violation("REJ-2", A.site(f), "REJ-2:find_str",
-                      "find_str can return without having found the string (scan ok=%s, throws after full scan=%s, "
-                      "returns the match position=%s): an undeclared symbol would get an arbitrary index" % (ok, tail_ok, found_ret))
+                      "find_str can yield an index for a string that is not in the table: %s — an undeclared symbol would "
+                      "get an arbitrary index" % "; ".join(problems))
+    else:
+        chk.ok("REJ-2", A.site(f), "find_str returns only the position of an entry equal to the string and throws after a "
+                                   "complete scan")
+    # str_equal: equal iff both strings end together; a difference at any position (including one string ending) is
+    # 'not equal'
+    g = fx.need("ctpg::utils::str_equal")[0]
+    flow.assert_structured(g)
+    cg = Canon(g)
+    gc, gn = PS.event_conditions(cg, g.body, unroll=1, drop=_drop_noise)
+    rt = gc.get(("return", "true"))
+    EQ = "(*$0 == *$1)"
+    if rt is None:
+        chk.violation("REJ-2", A.site(g), "REJ-2:str_equal:never-true", "str_equal never returns true")
+    else:
+        # every way of returning true has compared the current characters equal and seen the terminator of one of them
+        ok_true = all(any(a == EQ and pol for a, pol in conj) and
+                      any(re.fullmatch(r"\(\*\$[01] == 0\)", a) and pol for a, pol in conj) for conj in rt)
+        if ok_true:
+            chk.ok("REJ-2", A.site(g), "str_equal says 'equal' only where both strings have the same character and that "
+                                       "character is the terminator")
+        else:
+            chk.violation("REJ-2", A.site(g), "REJ-2:str_equal:prefix",
+                          "str_equal returns true when %s: a string that merely starts with a table entry (or the reverse) "
+                          "compares equal, so an undeclared name resolves to a declared one" % PS.show(rt)[:200])
     # producers of symbol indices
     want = {
         "term": "symbol{true, find_str(term_ids, $0.get_id())}",
@@ -293,7 +324,12 @@ def rej5(chk, fx):
                             flagvar = {k: False for k in flagvar}
                         # raw acceptance: len = 1 / len += 1 / len++ / ++len
                         is_len = len(eff[-1]) >= 1 and eff[-1][0][0] == "var" and eff[-1][0][1] in len_like if eff[0] in ("inc", "set", "op", "assign") else False
-                        if is_len and ((eff[0] == "inc" and eff[2] == 1) or (eff[0] == "set" and eff[2] == 1) or
+                        cond_one = False
+                        if eff[0] == "op" and eff[1] == "+=":
+                            r_ = strip(eff[3], casts=True)
+                            if r_ is not None and r_.get("k") == "ConditionalOperator":
+                                cond_one = any(AI.const_of(x) == 1 for x in r_["c"][1:])
+                        if is_len and ((eff[0] == "inc" and eff[2] == 1) or (eff[0] == "set" and eff[2] == 1) or cond_one or
                                        (eff[0] == "op" and eff[1] == "+=" and AI.const_of(eff[3]) == 1)):
                             n_acc += 1
                             if not known:
